@@ -55,7 +55,7 @@ def register(w):
         "key": K,
         "base": "NodeTransformer",
         "base_key": "func_adl/ast/func_adl_ast_utils.py::FuncADLNodeTransformer",
-        "state": {"_arg_stack": f"obj:{A}"},
+        "state": {"_arg_stack": f"obj:{A}", "_visit_depth": "int"},
         # the visitor's induction hypothesis (C18, partial correctness): on a well-formed node of
         # query shape, visit returns a well-formed node of query shape and of the same kind, or
         # raises the dedicated index error
@@ -130,11 +130,17 @@ def register(w):
                     "iff(result is None, not dict_resolves(v, s))",
                     "implies(good(v) and result is not None, good(result))"],
         "modifies": [],
-        "loops": {0: {"invariant": ["not key_has(_done, s)"],
-                      "hints": ["lem_kh(_done, _rest, s)", "lem_ki(_done, _rest, s)",
-                                "lem_ack(_done, _rest)"],
-                      "step_hints": ["lem_kh(_done, [head(_rest)], s)"]}},
-        "properties": ["C18", "C14"],
+        "loops": {0: {"invariant": ["iff(found is None, not key_has(_done, s))",
+                                    "implies(found is not None, isinstance(found, int))",
+                                    "implies(found is not None, found >= 0)",
+                                    "implies(good(v) and found is not None, good(nth(v.values, found)))",
+                                    "implies(key_has(_done, s), found == key_last(_done, s))"],
+                      "hints": ["lem_ack(_done, _rest)", "lem_klb(_done, s)",
+                                "len(_done) + len(_rest) == len(v.keys)"],
+                      "step_hints": ["lem_kha(_done, [head(_rest)], s)",
+                                     "lem_klr(_done, [head(_rest)], s)",
+                                     "lem_kld(_done, [head(_rest)], s)"]}},
+        "properties": ["C18", "C14", "C02"],
     })
     C.register(w, {
         "key": f"{K}.visit_Subscript_Dict",
@@ -350,6 +356,34 @@ def register(w):
         "properties": ["C18", "C14"],
     })
     C.register(w, {
+        "key": f"{F}::_avoid_arg_names_in",
+        "params": {"node": "py"},
+        "ensures": [],
+        "ret": "none",
+        "modifies": [],
+        "abstract": True, "trusted": True,
+        "assumes": ["_avoid_arg_names_in(node) only reads the tree and only assigns the module's "
+                    "name counter (so that arg_name never returns a name the tree uses): NOT "
+                    "verified here (string parsing of the names); its effect - no capture of a "
+                    "user binder called arg_<n> - is exercised by engine B (C02, naming scheme "
+                    "'generated-names')"],
+        "properties": ["C18", "C14", "C02"],
+    })
+    # the entry point: simplify_chained_calls.visit wraps NodeVisitor.visit (the trusted dispatch)
+    # in a depth counter; the class-level visitor contract is what callers of self.visit rely
+    # on, so the override has to re-establish it from the hypothesis on super().visit
+    C.register(w, {
+        "key": f"{K}.visit",
+        "self": K,
+        "params": {"node": "py"},
+        "requires": ["wf(node)", "qs(node)"],
+        "raises": {"FuncADLIndexError": "any"},
+        "ensures": ["wf(result)", "qs(result)", "same_kind(node, result)", "is_node(result)",
+                    "self._visit_depth == old(self._visit_depth)"],
+        "modifies": ["*"],
+        "properties": ["C18", "C14", "C02"],
+    })
+    C.register(w, {
         "key": f"{F}::make_args_unique",
         "params": {"a": "py"},
         "requires": ["isinstance(a, ast.Lambda)", "good(a)"],
@@ -382,6 +416,9 @@ _reg = register
 def register(w):
     _reg(w)
     from pyvc.lemmas import register_lemma
-    for n in ("kh", "ki", "ack"):
+    # proj_kha is proved first; the two key_last lemmas use its instance at the tail
+    hints = {"klr": ["lem_kha(tail(d), r, s)"], "kld": ["lem_kha(tail(d), r, s)"]}
+    for n in ("kh", "kha", "klr", "kld", "klb", "ack"):
         register_lemma(w, {"name": f"proj_{n}", "pred": f"lem_{n}", "induct": "list",
-                           "fuel": 4, "properties": ["C18", "C14"]})
+                           "fuel": 4, "hints": hints.get(n, []),
+                           "properties": ["C18", "C14", "C02"]})
